@@ -54,6 +54,14 @@ def call_forms(body_src, args_src, arity, atoms_only):
     forms = {"direct": f"f::{{{body_src}}};f({a})",
              "inline": f"{{{body_src}}}({a})",
              "variable": f"f::{{{body_src}}};g::f;g({a})"}
+    if arity == 0:
+        # a nilad: no parameter to bind, so nothing but the frame itself carries .f
+        forms["nested"] = f"f::{{{body_src}}};w::{{x;f()}};w(7)"
+        forms["nested-local"] = f"f::{{{body_src}}};w::{{[t];t::f;t()}};w(7)"
+        forms["recursive"] = f"n::0;r::{{n::n+1;:[n<3;.f();{body_src}]}};r()"
+        forms["recursive-nested"] = f"n::0;r::{{n::n+1;:[n<3;.f();{body_src}]}};w::{{x;r()}};w(7)"
+        forms["recursive-nested-arg"] = f"n::0;r::{{n::n+1;:[n<3;.f();{body_src}]}};w::{{x+r()}};(w(0))"
+        return forms
     if arity >= 2:
         forms["at"] = f"f::{{{body_src}}};f@[{' '.join(args_src)}]"
     elif atoms_only:
@@ -108,8 +116,22 @@ FAULT_SITES = {
     "o-after-m-with-assign": {"o2": "g2::c,g2;nofn(y)"},
     "fault-inside-each": {"h1": "a", "h2": "{nofn(x)}'[1 2 3]"},
     "error-in-primitive": {"h1": "a", "h2": "a+\"str\"@99"},
+    # the failing call is a Python-implemented function: one registered by the host, and a system function
+    "h-python-callable-raises": {"h1": "a", "h2": "a+pyfail(0)"},
+    "h-python-callable-raises-first": {"h1": "pyfail(0)", "h2": "a"},
+    "m-python-callable-raises-as-arg": {"m1": "pyfail(0)"},
+    "o-python-callable-raises-after-m": {"o2": "c,pyfail(0)"},
+    "h-system-function-raises": {"h1": "a", "h2": ".rs(0)"},
+    "m-system-function-raises": {"m2": "b+.rs(0)"},
+    "h-python-callable-raises-inside-each": {"h1": "a", "h2": "pyfail'[1 0 2]"},
 }
 DEFAULTS = {"h1": "a", "h2": "a+1", "m0": "", "m1": "x", "m2": "b", "o0": "", "o1": "x", "o2": "c,y"}
+
+
+def pyfail(x):
+    if x == 0:
+        raise ValueError("pyfail(0)")
+    return x
 
 
 def snapshot(k):
@@ -141,17 +163,18 @@ def run(tier, seed):
         k = KlongInterpreter()
         k("g1::10")
         k("g2::[4 5 6]")
+        k["pyfail"] = pyfail
         return k
 
     # (i) + (ii): substitution ----------------------------------------------------------------------------
     cases, meta = [], {}
-    for arity in (1, 2, 3):
+    for arity in (0, 1, 2, 3):
         bl = bodies(arity, rnd, 40 if not thorough else 400)
         tuples = list(itertools.product(ARGVALS, repeat=arity))
         rnd.shuffle(tuples)
         per_body = 3 if not thorough else 8
         for b in bl:
-            for args in (tuples[:per_body] if arity > 1 else [(a,) for a in ARGVALS]):
+            for args in (tuples[:per_body] if arity > 1 else [(a,) for a in ARGVALS] if arity == 1 else [()]):
                 cid = len(cases) + 1
                 env = dict(GLOBALS)
                 env.update({n: a for n, a in zip("xyz", args)})
@@ -271,7 +294,7 @@ def run(tier, seed):
     ev.cov["fault_sites"] = len(traces)
     ev.cov["rule"] = ("(i) every body of the grammar to depth 1 plus seeded depth-2 bodies, each mentioning exactly its parameters, x argument "
                       "tuples, in 5-7 call forms; (ii) every projection pattern and fill order for arity 2 and 3; (iii) 13 truth classes x 3 "
-                      "program shapes; (iv) 15 fault sites in three nested calls with locals; non-trivial = (body, arguments) pairs inside "
+                      "program shapes; (iv) 22 fault sites (undefined function, failing primitive, raising Python callable, raising system function) in three nested calls with locals; nilads in nested and recursive (.f) forms; non-trivial = (body, arguments) pairs inside "
                       "the verbs' domains")
     ev.sample({"body": kgeval.render_ast(meta[1][1]), "args": [canon.render(a) for a in meta[1][2]]})
     ev.cov["checker_cmd"] = "tlc KgEvalCases.tla ; tlc FrameTrace.tla"
